@@ -314,9 +314,11 @@ impl DeepClone for PdfStream {
             StreamInner::InFile { id, ref file_range } => cloner.stream_data(id, file_range.clone())?,
             StreamInner::Pending { ref data } => data.clone()
         };
-        Ok(PdfStream {
-            info: self.info.deep_clone(cloner)?, inner: StreamInner::Pending { data }
-        })
+        // the copy holds the data as read (decrypted): /Length states the length of that data, not what the
+        // source dictionary said about its own file (the ciphertext's length for an encrypted source)
+        let mut info = self.info.clone();
+        info.insert("Length", Primitive::Integer(data.len() as i32));
+        Ok(PdfStream { info: info.deep_clone(cloner)?, inner: StreamInner::Pending { data } })
     }
 }
 
